@@ -70,6 +70,11 @@ pub fn atoms() -> Vec<RevokedSpec> {
                 for i in inv {
                     v.push(RevokedSpec { serial: s.clone(), time: t, reason: r, invalidity: i });
                 }
+                // the invalidity date equal to the revocation time: the same instant, the same second with another
+                // sub-second part, the same instant spelled in another offset
+                v.push(RevokedSpec { serial: s.clone(), time: t, reason: r, invalidity: Some(t) });
+                v.push(RevokedSpec { serial: s.clone(), time: t, reason: r, invalidity: Some(TimeSpec { nanos: 999_999_999, ..t }) });
+                v.push(RevokedSpec { serial: s.clone(), time: t, reason: r, invalidity: Some(TimeSpec { offset: t.offset + 7200, ..t }) });
             }
         }
     }
@@ -201,6 +206,16 @@ pub fn crl_space(iss: &Issuers, conformant_only: bool) -> Space<CrlCase> {
         ("two reversed", vec![full.clone(), at[0].clone()]),
         ("same serial twice", vec![at[0].clone(), RevokedSpec { reason: Some(4), ..at[0].clone() }]),
         ("serial 80", vec![RevokedSpec { serial: vec![0x80], ..at[0].clone() }]),
+        // neighbours that look alike: the same wall-clock reading under two offsets (different instants), then the same instant under two offsets
+        ("three entries: same wall clock +00:00 / +02:00, then the first instant again as -05:00", vec![
+            RevokedSpec { serial: vec![0x21], time: TimeSpec::ymdhms(2023, 6, 1, 12, 0, 0), reason: None, invalidity: None },
+            RevokedSpec { serial: vec![0x22], time: TimeSpec { unix: TimeSpec::ymdhms(2023, 6, 1, 12, 0, 0).unix - 7200, nanos: 0, offset: 7200 }, reason: None, invalidity: None },
+            RevokedSpec { serial: vec![0x23], time: TimeSpec::ymdhms(2023, 6, 1, 12, 0, 0).with_offset(-18000), reason: None, invalidity: None },
+        ]),
+        ("two entries: equal revocation time and invalidity date, no reason / unspecified", vec![
+            RevokedSpec { serial: vec![0x31], time: TimeSpec::ymd(2023, 6, 1), reason: None, invalidity: Some(TimeSpec::ymd(2023, 6, 1)) },
+            RevokedSpec { serial: vec![0x32], time: TimeSpec::ymd(2023, 6, 1), reason: Some(0), invalidity: Some(TimeSpec::ymd(2023, 6, 1).with_nanos(5)) },
+        ]),
         ("invalidity date with a sub-second part and an offset", vec![at[0].clone(), RevokedSpec { invalidity: Some(TimeSpec::ymdhms(2024, 2, 27, 2, 13, 20).with_nanos(500_000_000).with_offset(-3600)), time: TimeSpec::ymdhms(2024, 3, 1, 0, 0, 0).with_nanos(1), ..at[0].clone() }]),
     ];
     for (l, v) in lists {
@@ -342,7 +357,7 @@ pub fn add_sections(rep: &mut Report, prop: &str, thorough: bool, conformant_onl
     let space = crl_space(&iss, conformant_only);
     let cap = if thorough { 1100 } else { 50 };
     {
-        let sec = Section::new("crl/levels", "all CRL states with exactly k non-default dimensions (updates 399, crl_number 9, idp 9, revoked 9, key_id 5, issuer 26)").with_deadline(cap);
+        let sec = Section::new("crl/levels", "all CRL states with exactly k non-default dimensions (updates 399, crl_number 9, idp 9, revoked 11, key_id 5, issuer 26)").with_deadline(cap);
         run::levels(&sec, &space, if thorough { 5 } else { 3 }, &|c, _| judge(prop, &known, c, &iss, true));
         rep.add(sec);
     }
